@@ -184,22 +184,6 @@ func genC06(c *Ctx) {
 		}
 		t0 = time.Now()
 	}
-	// (1) the Lean mirror of ai.CountThreats (used by DFPNSolver.solve) against the real one
-	for k := c.Scale(1600, 160000); k > 0; k-- {
-		var p *tak.Position
-		if r.Chance(1, 2) {
-			p = roadBoard(r, 3+r.Intn(6))
-		} else {
-			p = randomPosition(r)
-		}
-		out := c.Emit("pnthreats " + encPos(p))
-		if out != "0 0 0 0" {
-			c.Count("threats.some")
-		} else {
-			c.Count("threats.none")
-		}
-	}
-
 	lap("threats")
 	// (2) exactly solved game graphs: every position in them has a known value for both colours
 	graphs := c.Scale(16, 320)
